@@ -27,6 +27,8 @@ def histories(quick):
         else:
             # a failed run must leave nothing behind for the next one (always part of the quick tier)
             mids += [('run_poison', 'restart', 'run_a'), ('run_poison', 'restart', 'run_b'), ('kill', 'restart', 'run_b'), ('run_a', 'run_poison', 'restart', 'run_b')]
+            # ... also when the pool is made usable again by a new worker instead of a restart
+            mids += [('run_poison', 'add_P', 'run_a'), ('run_poison', 'add_P', 'run_b')]
         # a restart which cannot stop a stuck worker (forced termination disabled for the restart only) must not abandon its child
         mids += [('stuck', 'restart_noforce'), ('run_a', 'stuck', 'restart_noforce')]
         for mid in mids:
